@@ -120,14 +120,9 @@ func runC06(c *ShardCtx) {
 					ro.Quirks = map[string]bool{peg.QMemo: true}
 					rm := peg.Run(g, in, script, ro)
 					if d, sk := core.Compare(rm, obs, peg.NewPosTable(in), "", core.CmpOpts{SkipLog: true, SkipNoMatch: true}); !sk && len(d) == 0 {
-						// exactly the packrat table keyed by (node, offset); which of the two label defects?
-						ro.Quirks = map[string]bool{peg.QMemoRebind: true}
-						rr := peg.Run(g, in, script, ro)
-						if rr.Val == ref.Val && fmt.Sprint(rr.Errs) == fmt.Sprint(ref.Errs) {
-							known = "memo-label-rebind"
-						} else {
-							known = "memo-label-dependent"
-						}
+						// exactly the packrat table keyed by (node, offset): a code block
+						// whose result depends on labels bound before its start offset
+						known = "memo-label-dependent"
 					}
 				}
 				var cc *ConfCase
